@@ -24,12 +24,16 @@ import common
 from common import Ctx, Finding, Outcome
 
 PROPERTY = "C10"
-LEAN_TARGETS = ["QcelVerif.Props.C10", "QcelVerif.Driver.C10"]
+LEAN_TARGETS = ["QcelVerif.Props.C10", "QcelVerif.Props.C10Msgpack", "QcelVerif.Driver.C10"]
 DRIVER = "QcelVerif/Driver/C10.lean"
 THEOREMS = [
     ("QcelVerif.Ser.unhex_hex", "unhex (hex bs) = some bs for every byte string (json-ext data field)"),
     ("QcelVerif.Ser.beNat_beBytes", "k-byte big-endian encode/decode of any n < 256^k is the identity (all msgpack length/int fields)"),
-    ("QcelVerif.Ser.msgpack_roundtrip_partial", "PARTIAL (byte level of msgpack): all fixed-width fields read back exactly, positive fixints decode to themselves leaving the stream, and the hook restores any well-formed array; FULL mpDecode(mpEnc v)=ok v over byte streams and reserialise_identical are NOT proved (tied differentially, byte-for-byte)"),
+    ("QcelVerif.Ser.msgpack_roundtrip_partial", "(superseded by msgpack_roundtrip) fixed-width fields read back exactly; positive fixints decode to themselves; the hook restores any well-formed array"),
+    ("QcelVerif.Ser.mpDec_mpEnc_prefix", "decoding mpEnc v ++ rest with enough fuel returns (v, rest), for every well-formed value tree (mutual structural induction, all 28 head forms)"),
+    ("QcelVerif.Ser.msgpack_roundtrip", "FULL byte-stream round trip: mpDecode (mpEnc v) = ok v for every well-formed value tree (arrays at any depth come back as the same dtype/shape/bytes)"),
+    ("QcelVerif.Ser.reserialise_identical", "serialising what was read back gives the identical payload"),
+    ("QcelVerif.Ser.hook_keeps_map_iff", "the object hook leaves a map alone iff it has no bytes key _nd_ (the side condition of the round trip is necessary and sufficient)"),
     ("QcelVerif.Ser.ext_envelope_roundtrip_msgpack", "msgpackext_decode of the envelope of a well-formed rank>=1 array (any dtype/shape incl. zero extents) gives back dtype, shape and bytes"),
     ("QcelVerif.Ser.ext_envelope_roundtrip_json", "jsonext_decode of the json-ext envelope (hex data) of a well-formed rank>=1 array gives back dtype, shape and bytes"),
     ("QcelVerif.Ser.jsonext_roundtrip", "jxDec (jxEnc v) = ok v for every value tree with well-formed array leaves at any nesting depth and no user '_nd_' key (json-ext, value level)"),
@@ -69,10 +73,11 @@ RULE = (
 )
 LEVEL_TEXT = (
     "proof, partial. Proved for all inputs: hex round trip, every fixed-width msgpack field, both ndarray envelopes (any dtype/shape/bytes, "
-    "zero extents included), the json-ext round trip over whole payload trees with arrays at any depth, flat reshape round trip and refusal, and "
-    "the dispatch tables (re-extracted from the source on every run). NOT proved: the msgpack byte-stream round trip over whole trees and the "
-    "identical-second-serialisation clause (msgpack_roundtrip_partial states what is) — these, the JSON text layer, and instance equality through "
-    "pydantic validators are differential only: byte-for-byte / field-for-field on the generated stream plus the independent Python oracle"
+    "zero extents included), the json-ext round trip over whole payload trees with arrays at any depth, the FULL msgpack byte-stream round trip "
+    "mpDecode (mpEnc v) = ok v over whole trees and identical re-serialisation (msgpack_roundtrip, reserialise_identical), flat reshape round trip "
+    "and refusal, and the dispatch tables (re-extracted from the source on every run). Partial because the JSON text layer, the msgpack C "
+    "extension itself and instance equality through pydantic are third-party: they are tied to the model byte-for-byte / by exact comparison on "
+    "everything generated, not proved."
 )
 TECHNIQUE = "Lean 4 structural-induction proofs of codec round trips + decide over source-extracted tables + byte-for-byte differential correspondence"
 
